@@ -5693,7 +5693,9 @@ write_function_instance(ostream &out, FunctionRemap *remap,
 
       pexpr_string = "(" + enum_type->get_local_name(&parser) + ")" + param_name + "_val";
       expected_params += classNameFromCppName(enum_type->get_simple_name(), false);
-      extra_param_check << " && " << param_name << "_val != -1";
+      // -1 is a legitimate enum value; it only signals a failed conversion when
+      // an exception was raised along with it.
+      extra_param_check << " && (" << param_name << "_val != -1 || !PyErr_Occurred())";
       clear_error = true;
 
     } else if (TypeManager::is_bool(type)) {
